@@ -260,11 +260,11 @@ def skip_locks(ctx: Ctx, rule: str) -> None:
 
 
 def run(ctx: Ctx) -> None:
-    lock_discipline(ctx, "1")
-    compare_then_copy(ctx, "2")
-    link_mode(ctx, "4")
-    lock_typestate(ctx, "5")
-    skip_locks(ctx, "6")
+    ctx.call(lock_discipline, "1")
+    ctx.call(compare_then_copy, "2")
+    ctx.call(link_mode, "4")
+    ctx.call(lock_typestate, "5")
+    ctx.call(skip_locks, "6")
 
 
 MUTANTS = [
